@@ -1,0 +1,69 @@
+//go:build verif
+
+package app
+
+// Runners: once, in the order given by the ordering contract, only when the container is ready (C13, C12).
+
+//@ spec func RunnerCls(r definition.ApplicationRunner) int = framework_helper.Cls(r)
+
+//@ func (*App).callRunners
+//@ property C13 C12
+//@ requires [ready] Refreshed && !Failed
+//@ requires [runners-non-nil] forall(k, int, implies(0 <= k && k < len(s.ApplicationRunners), s.ApplicationRunners[k] != nil))
+//@ assigns s.ApplicationRunners, Failed, RanLen, RanAt, RanSrc, LastRunFailed
+//@ let n = len(s.ApplicationRunners)
+//@ let ran0 = RanLen
+//@ let in = s.ApplicationRunners
+//@ ensures [all-invoked] implies(result == nil, RanLen == ran0 + n)
+//@ ensures [each-from-the-list] forall(k, int, implies(ran0 <= k && k < RanLen, 0 <= RanSrc[k] && RanSrc[k] < n && RanAt[k] == oldat(in, RanSrc[k])), RanAt[k])
+//@ ensures [exactly-once] forall(a, int, forall(b, int, implies(ran0 <= a && a < b && b < RanLen, RanSrc[a] != RanSrc[b]), RanSrc[b]), RanSrc[a])
+//@ ensures [classes-in-order] forall(a, int, forall(b, int, implies(ran0 <= a && a < b && b < RanLen, Cls(RanAt[a]) <= Cls(RanAt[b])), RanAt[b]), RanAt[a])
+//@ ensures [order-nondecreasing] forall(a, int, forall(b, int, implies(ran0 <= a && a < b && b < RanLen && Cls(RanAt[a]) == Cls(RanAt[b]) && Cls(RanAt[a]) < 2, Ord(RanAt[a]) <= Ord(RanAt[b])), RanAt[b]), RanAt[a])
+//@ ensures [stops-at-first-error] implies(result != nil, LastRunFailed && RanLen > ran0 && RanLen <= ran0 + n)
+//@ ensures [error-iff-failed] (result != nil) == Failed
+//@ ensures [trace-prefix-kept] forall(k, int, implies(k < ran0, RanAt[k] == old(RanAt[k]) && RanSrc[k] == old(RanSrc[k])))
+//@ ghost after call Run: RanSrc = store(RanSrc, RanLen - 1, tag(runners, i))
+//@ loop 1 invariant [trace-length] RanLen == ran0 + _done && 0 <= _done && _done <= len(runners)
+//@ loop 1 invariant [still-ready] Refreshed && !Failed
+//@ loop 1 invariant [trace-is-sorted-prefix] forall(m, int, implies(ran0 <= m && m < ran0 + _done, RanAt[m] == runners[m - ran0] && RanSrc[m] == tag(runners, m - ran0)), RanAt[m], RanSrc[m])
+//@ loop 1 invariant [trace-prefix-kept] forall(k, int, implies(k < ran0, RanAt[k] == old(RanAt[k]) && RanSrc[k] == old(RanSrc[k])))
+//@ loop 1 invariant [input-kept] forall(k, int, implies(0 <= k && k < n, in[k] == oldat(in, k)))
+
+// The three start-up phases are thin wrappers around the interface calls; each passes the phase contract through.
+
+//@ func (*App).initConfiguration
+//@ property C13 C09
+//@ requires [configure-set] s.Configure != nil
+//@ assigns everything
+//@ ensures [failure-recorded] Failed == (old(Failed) || result != nil)
+//@ ensures [no-runner] RanLen == old(RanLen) && RanAt == old(RanAt) && RanSrc == old(RanSrc)
+//@ ensures [not-refreshed] Refreshed == old(Refreshed)
+
+//@ func (*App).initFactory
+//@ property C13 C09
+//@ requires [factory-set] s.Factory != nil
+//@ assigns everything
+//@ ensures [failure-recorded] Failed == (old(Failed) || result != nil)
+//@ ensures [no-runner] RanLen == old(RanLen) && RanAt == old(RanAt) && RanSrc == old(RanSrc)
+//@ ensures [not-refreshed] Refreshed == old(Refreshed)
+
+//@ func (*App).refresh
+//@ property C13 C09
+//@ requires [factory-set] s.Factory != nil
+//@ assigns everything
+//@ ensures [failure-recorded] Failed == (old(Failed) || result != nil)
+//@ ensures [no-runner] RanLen == old(RanLen) && RanAt == old(RanAt) && RanSrc == old(RanSrc)
+//@ ensures [refreshed-iff-ok] Refreshed == (old(Refreshed) || result == nil)
+
+// run: configuration, factory preparation, refresh, then - only if all three succeeded - the runners.
+//@ func (*App).run
+//@ property C13 C09
+//@ requires [clean-start] !Failed && !Refreshed
+//@ requires [wired] s.Configure != nil && s.Factory != nil
+//@ assigns everything
+//@ ensures [run-reports-failure] (result != nil) == Failed
+//@ ensures [no-runner-unless-refreshed] implies(!Refreshed, RanLen == old(RanLen))
+//@ ensures [success-means-all-runners-ran] implies(result == nil, Refreshed && !Failed)
+//@ assume after call initConfiguration: [options-keep-wiring] s.Configure != nil && s.Factory != nil
+//@ assume after call initFactory: [options-keep-wiring2] s.Configure != nil && s.Factory != nil
+//@ assume after call (*github.com/go-kid/ioc/app.App).refresh: [injected-runners-non-nil] forall(k, int, implies(0 <= k && k < len(s.ApplicationRunners), s.ApplicationRunners[k] != nil))
